@@ -119,7 +119,7 @@ class MeshBuild:
             raise AnalysisError("np.arange over an unsupported integer range")
         e = AnalysisError("mesh.%s: np.arange with a non-integer step" % self.cls.name)
         e.violation = ("MESH-COUNT", self.cls.qualname, "the face array is built by np.arange with non-integer arguments: its number of entries is ceil((stop-start)/step) evaluated in floating point, i.e. decided by rounding -- for some (ncell, length) there is one face too many (ncell+2 faces, the last beyond x0+length) or one too few; np.linspace(start, stop, ncell+1) fixes the count",
-                       "float-arange", {"C20"})
+                       "float-arange", {"C20", "C03", "C01", "C04", "C11", "C13"})
         raise e
 
     def append(self, args, kwargs):
